@@ -576,4 +576,27 @@ def callViews (r : Request) : List Callable → Bool → Outcome
 def callView (reg : Registry) (classifier : Nat) (r : Request) : Outcome :=
   callViews r (findViews reg classifier r) false
 
+/-! ## which predicates the lookup ASKS (evaluation trace)
+
+The loops above written once more, returning the tags of the views whose predicates (`__predicated__` inside the
+derived view, `predicate_wrapper`) are evaluated, in order.  `DView.call` evaluates `holds` once; a loop stops at the
+first view that does not raise `PredicateMismatch`. -/
+
+/-- `MultiView.__call__`: views asked, in order -/
+def askedFirst (r : Request) : List DView → List Nat
+  | [] => []
+  | v :: vs => v.tag :: (if v.holds r then [] else askedFirst r vs)
+
+def Callable.asked (r : Request) : Callable → List Nat
+  | .single v => [v.tag]
+  | .multi mv => askedFirst r (mv.getViews r)
+
+/-- `_call_view`: views asked, in order -/
+def askedViews (r : Request) : List Callable → List Nat
+  | [] => []
+  | c :: cs => c.asked r ++ (if (c.call r).isSome then [] else askedViews r cs)
+
+def callViewAsked (reg : Registry) (classifier : Nat) (r : Request) : List Nat :=
+  askedViews r (findViews reg classifier r)
+
 end Pyr.ViewLookup
